@@ -454,7 +454,9 @@ static void alg_case(Rng & rng, const std::string & tier) {
         for (int t = 0; t < nz; ++t) {
             auto b = fv.bases[rng.below(fv.bases.size())];
             if (rng.coin()) b.values *= -1.0;
-            if (rng.coin(1, 4)) b.values[(long)rng.below((size_t)b.values.size())] += 0.25;
+            // perturbations straddling checkEqualGeneral's 1e-6: 2^-21 (4.8e-7, still "zero"), 2^-19 (1.9e-6, not zero), 1/4
+            if (rng.coin(1, 2)) { static const double eps[3] = {0x1p-21, 0x1p-19, 0.25};
+                b.values[(long)rng.below((size_t)b.values.size())] += (rng.coin() ? 1 : -1) * eps[rng.below(3)]; }
             z.bases.push_back(b);
         }
         emit_fvcz(sp, fv, z);
